@@ -111,6 +111,11 @@ impl Scanner {
         let start = self.indices[self.pos];
         let end = (start + n).min(self.source.len());
         let part = &self.source.as_bytes()[start..end];
+        #[cfg(gosyn_verif)]
+        assert!(
+            std::str::from_utf8(part).is_ok(),
+            "gosyn_verif: invalid utf8 in next_nstr"
+        );
         unsafe { std::str::from_utf8_unchecked(part) }
     }
 
@@ -601,6 +606,26 @@ fn is_hex_digit(c: char) -> bool {
 
 fn is_escaped_char(c: char) -> bool {
     ['a', 'b', 'f', 'n', 'r', 't', 'v', '\\', '\'', '"'].contains(&c)
+}
+
+#[cfg(gosyn_verif)]
+impl Scanner {
+    pub(crate) fn verif_lines(&self) -> Vec<usize> {
+        self.lines.clone()
+    }
+}
+
+#[cfg(gosyn_verif)]
+pub(crate) fn verif_char_class(c: char) -> u32 {
+    (is_letter(c) as u32)
+        | (is_unicode_digit(c) as u32) << 1
+        | (c.is_whitespace() as u32) << 2
+        | (is_decimal_digit(c) as u32) << 3
+        | (is_hex_digit(c) as u32) << 4
+        | (is_octal_digit(c) as u32) << 5
+        | (is_binary_digit(c) as u32) << 6
+        | (is_escaped_char(c) as u32) << 7
+        | (is_unicode_char(c) as u32) << 8
 }
 
 #[cfg(test)]
